@@ -49,8 +49,14 @@ def gen_graph(prng):
         edges = [[i, j] for i in range(n) for j in range(i + 1, n)]
     elif kind == "forest":
         edges = [[prng.randrange(i), i] for i in range(1, n) if prng.random() < 0.7]
+    multi = False
+    if edges and prng.random() < 0.15:
+        # nx.MultiGraph (a subclass of nx.Graph, e.g. what nx.configuration_model returns): parallel edges are
+        # separate edges and must be retained independently
+        multi = True
+        edges = edges + [prng.choice(edges) for _ in range(prng.randrange(1, len(edges) + 2))]
     prng.shuffle(edges)
-    return {"nodes": labels, "edges": [[labels[a], labels[b]] for a, b in edges], "kind": kind}
+    return {"nodes": labels, "edges": [[labels[a], labels[b]] for a, b in edges], "kind": kind, "multi": multi}
 
 
 def generate(prng, tier, index):
@@ -62,14 +68,15 @@ def generate(prng, tier, index):
 
 
 def build(g, attrs):
-    G = nx.Graph()
+    G = nx.MultiGraph() if g.get("multi") else nx.Graph()
     G.add_nodes_from(g["nodes"])
     G.add_edges_from(g["edges"])
     if attrs:
         for v in G.nodes():
             G.nodes[v]["joint_degree"] = (G.degree(v), 0)
-        for i, e in enumerate(G.edges()):
-            G.edges[e]["topology"] = f"t{i % 2}"
+        if not g.get("multi"):
+            for i, e in enumerate(G.edges()):
+                G.edges[e]["topology"] = f"t{i % 2}"
     return G
 
 
@@ -109,6 +116,8 @@ def execute(sc, ctx):
     ctx.edges = G.number_of_edges()
     if any(G.degree(v) == 0 for v in G.nodes()):
         ctx.probe("isolated_vertex")
+    if sc["graph"].get("multi"):
+        ctx.probe("multigraph_input")
 
 
 def nontrivial(sc, ctx):
@@ -132,15 +141,20 @@ def shrink(sc):
 
 # ---- star law -------------------------------------------------------------------------------------
 def star_scenarios(seed, tier):
-    out = [("M4-phi0.3", 4, 0.3), ("M6-phi0.5", 6, 0.5), ("M3-phi0.9", 3, 0.9), ("M8-phi0.1", 8, 0.1)]
+    out = [("M4-phi0.3", 4, 0.3, 1), ("M6-phi0.5", 6, 0.5, 1), ("M3-phi0.9", 3, 0.9, 1), ("M8-phi0.1", 8, 0.1, 1),
+           ("M4-phi0.5-doubled", 4, 0.5, 2), ("M5-phi0.3-tripled", 5, 0.3, 3)]
     if tier == "thorough":
-        out += [("M10-phi0.7", 10, 0.7), ("M2-phi0.5", 2, 0.5), ("M5-phi0.05", 5, 0.05)]
-    return [(t, {"M": m, "phi": p}) for t, m, p in out]
+        out += [("M10-phi0.7", 10, 0.7, 1), ("M2-phi0.5", 2, 0.5, 1), ("M5-phi0.05", 5, 0.05, 1), ("M6-phi0.2-doubled", 6, 0.2, 2)]
+    return [(t, {"M": m, "phi": p, "k": k}) for t, m, p, k in out]
 
 
 def dist_runs(sc, base_seed, tag, start, stop):
     M = sc["M"]
     G = nx.star_graph(M)
+    if sc.get("k", 1) > 1:
+        G = nx.MultiGraph(G)
+        for _ in range(sc["k"] - 1):
+            G.add_edges_from([(0, i) for i in range(1, M + 1)])
     cnt = Counter()
     digs = set()
     dec = 0
@@ -163,11 +177,13 @@ def judge_star(sc, counts, n):
     for key in counts:
         if isinstance(key, tuple):
             return [("C18.raised", f"bond_percolate raised {key[1]}")]
-    exp = {k: math.comb(M, k) * phi ** k * (1 - phi) ** (M - k) for k in range(M + 1)}
+    mult = sc.get("k", 1)
+    q = 1.0 - (1.0 - phi) ** mult          # a leaf stays attached iff at least one of its parallel spokes is retained
+    exp = {k: math.comb(M, k) * q ** k * (1 - q) ** (M - k) for k in range(M + 1)}
     bad = stats.frequency_test(counts, exp, n)
     if bad:
         c, q, p, st, thr = max(bad, key=lambda b: b[3])
-        return [("C18.star", f"star with {M} leaves, phi={phi}: P(N*S-1={c}) observed {q:.5f}, Binomial gives {p:.5f} "
+        return [("C18.star", f"star with {M} leaves ({mult} parallel spoke(s) each), phi={phi}: P(N*S-1={c}) observed {q:.5f}, Binomial gives {p:.5f} "
                              f"over {n} runs (n*KL={st:.1f} >= {thr:.1f})")]
     return []
 
